@@ -197,6 +197,8 @@ def run_scenario(ctx, binary, cfg, upath, mpath, max_tests, stats):
             stats["template_for_refusable_options"] += 1
         txs = t["tpl"]["txs"]
         stats["same_as_design_model" if txs == t["predicted"] else "differs_from_design_model"] += 1
+        if txs != t["predicted"]:
+            stats["differs_from_design_model_only_in_order_of_equal_feerate_clusters" if sorted(txs) == sorted(t["predicted"]) else "differs_from_design_model_in_content:" + cfg] += 1
         if txs:
             ctx.nontrivial.add(vflib.digest([t["pool"], t["delta"], t["chain"], t["o"], txs]))
         if len(txs) < len(t["pool"]):
